@@ -1,4 +1,5 @@
 import Votca.Model.C12R
+import Votca.Model.C06F
 /-! line-protocol handler for the csg_resample runs of C12 (core only) -/
 namespace Driver.C12R
 open Votca Votca.C12 Votca.C12R
@@ -65,6 +66,40 @@ def handle (args : List String) : Verdict :=
                       | _, some ((g, (_, d, _)), i), _ => s!"RESAMPLE-DERIVATIVE row {i} x={showR g}: written {showR d}, derivative of the spline {showR (f g).2}"
                       | _, _, some ((e, ((_, _, a), _)), i) => s!"RESAMPLE-FLAG row {i}: written {a}, expected {e}"
                       | _, _, _ => "" }
+  match p.run args with
+  | some (v, []) => v
+  | _ => { agree := false, msg := "bad-line", tag := "bad" }
+
+/-- fit mode: data sampled from a natural cubic spline on the fit grid; `csg_resample --fitgrid` has to return that spline on the output grid
+    ("a spline fit reproduces any function that already lies in the spline space") -/
+def handleFit (args : List String) : Verdict :=
+  let p : P Verdict := do
+    let _sid ← tok
+    let nk ← nat
+    let knots ← many (do let x ← rat; let y ← rat; pure (x, y)) nk
+    let fmn ← rat; let fmx ← rat; let fst ← rat
+    let omn ← rat; let omx ← rat; let ost ← rat
+    let bar ← tok
+    if bar != "|" then failure else
+    let status ← tok
+    let no ← nat
+    let out ← many row no
+    let it : C06F.Inter := { bonded := false, t1 := 0, t2 := 0, mn := fmn, mx := fmx, step := fst, star := [] }
+    let g := C06F.gridOf it
+    if g.length != nk || !((g.zip (knots.map (·.1))).all fun (a, b) => absRat (a - b) ≤ 1 / 10 ^ 9) then
+      pure { agree := false, msg := "fit grid of the harness is not Spline::GenerateGrid", tag := "resfit-bad-grid" } else
+    if status != "ok" then pure { agree := false, propOk := false, msg := "RESAMPLE-FIT csg_resample --fitgrid failed on data from the spline space", tag := "resfit" } else
+    match C06F.naturalF2 g (knots.map (·.2)) with
+    | none => pure { agree := false, msg := "natural spline system singular", tag := "resfit" }
+    | some f2 =>
+      let grid := outGrid omn omx ost
+      let sc := (knots.map (·.2)).foldl (fun m y => if m < absRat y then absRat y else m) 1
+      let bad := if grid.length != no then some s!"{no} rows written, {grid.length} expected" else
+        ((grid.zip out).zipIdx.find? fun ((x, (x', y', _)), _) =>
+          !(absRat (x - x') ≤ 1 / 10 ^ 9 && absRat (C12.cubicCalc g (knots.map (·.2)) f2 x - y') ≤ sc / 10 ^ 6)).map fun ((x, (_, y', _)), i) =>
+            s!"row {i} (x = {showR x}): fitted value {showR y'}, the generating spline has {showR (C12.cubicCalc g (knots.map (·.2)) f2 x)}"
+      pure { agree := bad.isNone, propOk := bad.isNone, tag := s!"resfit-{nk}knots-{if ost < fst then "finer" else "same"}",
+             msg := "RESAMPLE-FIT the fit does not reproduce a function of the spline space: " ++ bad.getD "" }
   match p.run args with
   | some (v, []) => v
   | _ => { agree := false, msg := "bad-line", tag := "bad" }
